@@ -719,7 +719,7 @@ Lemma diamond_of : forall o, multiple_inheritance o = false -> diamond_cls (clas
 Proof. intros o H. destruct o; simpl in *; try exact H. apply diamond_meta. Qed.
 
 Definition assert_ok (o : obj) : Prop :=
-  wf_obj o = true /\ multiple_inheritance o = false /\ numeric_like o = false /\ enum_class_object o = false.
+  wf_obj o = true /\ multiple_inheritance o = false /\ enum_class_object o = false.
 
 Lemma numeric_like_cls : forall o, numeric_like o = false ->
   (forall k, o <> OClass k) -> numeric_cls (class_of o) = false.
@@ -728,40 +728,54 @@ Proof. intros o H Hn. destruct o; simpl in *; try exact H. exfalso. apply (Hn c)
 Lemma class_object_not_numeric : forall k, numeric_cls (meta k) = false.
 Proof. destruct k; reflexivity. Qed.
 
+Lemma sub_or_promotable : forall c t, sub c t || promotable c t = sub_art c t.
+Proof. intros c t; destruct c, t; reflexivity. Qed.
+
+(* an instance of c that belongs to the declared class t (possibly by promotion): t is a subclass
+   of c, or c is a subclass of / promoted to t *)
+Lemma pos_comparable : forall K t c,
+  diamond_cls K = false -> sub_art K t = true -> sub K c = true -> sub t c || sub_art c t = true.
+Proof.
+  assert (H : forallb (fun K => forallb (fun t => forallb (fun c =>
+              implb (negb (diamond_cls K) && sub_art K t && sub K c) (sub t c || sub_art c t)) all_cls) all_cls) all_cls = true)
+    by (vm_compute; reflexivity).
+  intros K t c Hd H1 H2.
+  pose proof (forallb_all_cls _ (forallb_all_cls _ (forallb_all_cls _ H K) t) c) as Hi. simpl in Hi.
+  rewrite Hd, H1, H2 in Hi. exact Hi.
+Qed.
+
+Lemma isinstance_pos_typed : forall o t c s,
+  sub_art (class_of o) t = true -> isinst o c = true -> multiple_inheritance o = false ->
+  member_s o s = true ->
+  member o (if sub t c then [s] else if sub c t || promotable c t then [plain (VTyped c)] else []) = true.
+Proof.
+  intros o t c s Hk Hi Hd Hm.
+  pose proof (pos_comparable _ _ _ (diamond_of o Hd) Hk Hi) as Hc.
+  destruct (sub t c); [rewrite member_single; exact Hm|]. simpl in Hc.
+  rewrite sub_or_promotable, Hc. rewrite member_single, member_s_plain. simpl. apply sub_sub_art. exact Hi.
+Qed.
+
 Lemma isinstance_pos_sound : forall c,
   ksound (KIsInstance c true) (fun o => isinst o c = true /\ assert_ok o).
 Proof.
-  intros c s o Hm [Hi [Hw [Hd [Hn He]]]]. cbn [apply_constr]. unfold apply_isinstance.
+  intros c s o Hm [Hi [Hw [Hd He]]]. cbn [apply_constr]. unfold apply_isinstance.
   pose proof (member_s_base o s Hm) as Hb.
-  assert (HnK : numeric_cls (class_of o) = false).
-  { destruct o; simpl in *; try exact Hn. apply class_object_not_numeric. }
   destruct (sbase s) as [|l|t|t|ms|g] eqn:Eb.
   - rewrite member_single, member_s_plain. simpl. apply sub_sub_art. exact Hi.
   - simpl in Hb. apply obj_eqb_eq in Hb. subst l. rewrite Hi. cbn [Bool.eqb]. rewrite member_single. exact Hm.
-  - simpl in Hb. pose proof (non_numeric_nominal _ _ HnK Hb) as Hs.
-    pose proof (nominal_comparable _ _ _ (diamond_of o Hd) Hs Hi) as Hc. cbn [nominal_cls].
-    destruct (sub t c); [rewrite member_single; exact Hm|]. simpl in Hc. rewrite Hc.
-    rewrite member_single, member_s_plain. simpl. apply sub_sub_art. exact Hi.
+  - simpl in Hb. cbn [nominal_cls]. apply (isinstance_pos_typed o t c s Hb Hi Hd Hm).
   - simpl in Hb. destruct o; try discriminate. simpl in He. unfold isinst in *. simpl in *.
     unfold meta in Hi at 1. rewrite He in Hi. rewrite (meta_sub_type t c Hi). cbn [Bool.eqb].
     rewrite member_single. exact Hm.
   - assert (Hk : sub_art (class_of o) CTuple = true) by (simpl in Hb; destruct o; try discriminate; reflexivity).
-    pose proof (non_numeric_nominal _ _ HnK Hk) as Hs.
-    pose proof (nominal_comparable _ _ _ (diamond_of o Hd) Hs Hi) as Hc. cbn [nominal_cls].
-    destruct (sub CTuple c); [rewrite member_single; exact Hm|]. simpl in Hc. rewrite Hc.
-    rewrite member_single, member_s_plain. simpl. apply sub_sub_art. exact Hi.
-  - assert (Hk : sub_art (class_of o) (gen_cls g) = true).
-    { apply (member_nominal_cls o (VGen g) Hb); intros; discriminate. }
-    pose proof (non_numeric_nominal _ _ HnK Hk) as Hs.
-    pose proof (nominal_comparable _ _ _ (diamond_of o Hd) Hs Hi) as Hc. cbn [nominal_cls].
-    destruct (sub (gen_cls g) c); [rewrite member_single; exact Hm|]. simpl in Hc. rewrite Hc.
-    rewrite member_single, member_s_plain. simpl. apply sub_sub_art. exact Hi.
+    cbn [nominal_cls]. apply (isinstance_pos_typed o CTuple c s Hk Hi Hd Hm).
+  - cbn [nominal_cls]. apply (isinstance_pos_typed o (gen_cls g) c s (gen_member_cls o g Hb) Hi Hd Hm).
 Qed.
 
 Lemma isinstance_neg_sound : forall c,
-  ksound (KIsInstance c false) (fun o => isinst o c = false /\ assert_ok o).
+  ksound (KIsInstance c false) (fun o => isinst o c = false /\ numeric_like o = false).
 Proof.
-  intros c s o Hm [Hi [Hw [Hd [Hn He]]]]. cbn [apply_constr]. unfold apply_isinstance.
+  intros c s o Hm [Hi Hn]. cbn [apply_constr]. unfold apply_isinstance.
   pose proof (member_s_base o s Hm) as Hb.
   assert (HnK : numeric_cls (class_of o) = false).
   { destruct o; simpl in *; try exact Hn. apply class_object_not_numeric. }
@@ -777,30 +791,24 @@ Proof.
     pose proof (sub_trans _ _ _ (meta_mono_sub _ _ Hb) E). congruence.
   - assert (Hk : sub_art (class_of o) CTuple = true) by (simpl in Hb; destruct o; try discriminate; reflexivity).
     cbn [nominal_cls]. rewrite (Hgen _ Hk). rewrite member_single. exact Hm.
-  - assert (Hk : sub_art (class_of o) (gen_cls g) = true).
-    { apply (member_nominal_cls o (VGen g) Hb); intros; discriminate. }
-    cbn [nominal_cls]. rewrite (Hgen _ Hk). rewrite member_single. exact Hm.
+  - cbn [nominal_cls]. rewrite (Hgen _ (gen_member_cls o g Hb)). rewrite member_single. exact Hm.
 Qed.
 
 Lemma isvalue_pos_sound : forall l,
-  ksound (KIsValue l true) (fun o => o = l /\ assert_ok o).
+  ksound (KIsValue l true) (fun o => o = l).
 Proof.
-  intros l s o Hm [-> [Hw [Hd [Hn He]]]]. cbn [apply_constr]. unfold apply_isvalue.
+  intros l s o Hm ->. cbn [apply_constr]. unfold apply_isvalue.
   pose proof (member_s_base l s Hm) as Hb.
   assert (Hk : member l [plain (VKnown l)] = true).
   { rewrite member_single, member_s_plain. simpl. apply obj_eqb_refl. }
-  assert (HnK : numeric_cls (class_of l) = false).
-  { destruct l; simpl in *; try exact Hn. apply class_object_not_numeric. }
   destruct (sbase s) as [|l'|t|t|ms|g] eqn:Eb.
   - exact Hk.
   - simpl in Hb. apply obj_eqb_eq in Hb. subst l'. rewrite obj_eqb_refl. rewrite member_single. exact Hm.
-  - simpl in Hb. cbn [nominal_cls]. unfold isinst. rewrite (non_numeric_nominal _ _ HnK Hb). exact Hk.
-  - simpl in Hb. destruct l; try discriminate. simpl in Hn. rewrite (non_numeric_nominal _ _ Hn Hb). exact Hk.
+  - simpl in Hb. cbn [nominal_cls]. unfold isinst. rewrite sub_or_promotable, Hb. exact Hk.
+  - simpl in Hb. destruct l; try discriminate. rewrite sub_or_promotable, Hb. exact Hk.
   - assert (Hc : sub_art (class_of l) CTuple = true) by (simpl in Hb; destruct l; try discriminate; reflexivity).
-    cbn [nominal_cls]. unfold isinst. rewrite (non_numeric_nominal _ _ HnK Hc). exact Hk.
-  - assert (Hc : sub_art (class_of l) (gen_cls g) = true).
-    { apply (member_nominal_cls l (VGen g) Hb); intros; discriminate. }
-    cbn [nominal_cls]. unfold isinst. rewrite (non_numeric_nominal _ _ HnK Hc). exact Hk.
+    cbn [nominal_cls]. unfold isinst. rewrite sub_or_promotable, Hc. exact Hk.
+  - cbn [nominal_cls]. unfold isinst. rewrite sub_or_promotable, (gen_member_cls l g Hb). exact Hk.
 Qed.
 
 Lemma isvalue_neg_sound : forall l,
